@@ -187,18 +187,21 @@ def mkTrackUnfixed (k : Kymo) (rows : List Row) : Except Err Track :=
       | .ok tr => .ok ⟨rows.map fun r => (r.t, r.c * u / k.px), tr.minDur, some cs⟩
       | .error e => .error e
 
+/-- `import_kymotrackgroup_from_csv`: a file without data lines has no columns at all and fails the
+    mandatory-field test (`IOError("Invalid file format!")`). -/
 def importGroup (k : Kymo) (rows : List Row) : Except Err (List Track) :=
-  (readTxt rows).mapM (mkTrack k)
+  if rows.isEmpty then .error .io else (readTxt rows).mapM (mkTrack k)
 
 /-- import as in the pinned snapshot w.r.t. F4 only -/
 def importGroupUnfixedF4 (k : Kymo) (rows : List Row) : Except Err (List Track) :=
+  if rows.isEmpty then .error .io else
   match readTxtUnfixed rows with
   | .ok groups => groups.mapM (mkTrack k)
   | .error e => .error e
 
 /-- import as in the pinned snapshot w.r.t. F8 only -/
 def importGroupUnfixedF8 (k : Kymo) (rows : List Row) : Except Err (List Track) :=
-  (readTxt rows).mapM (mkTrackUnfixed k)
+  if rows.isEmpty then .error .io else (readTxt rows).mapM (mkTrackUnfixed k)
 
 /-- `group.save(file, …)` followed by `import_kymotrackgroup_from_csv(file, kymo, …)`. -/
 def roundtrip (k : Kymo) (sample : Option (Int → Rat → Int)) (fmt : Rat → Rat) (g : List Track) :
@@ -523,27 +526,34 @@ def showErrs (l : List (Option Err)) : String :=
   `c17.gauss skip w missing T C M K`               scan lines + minimum duration of each Gaussian-refined track
   `c17.fmt6 p/q`                                   value printed by `%.6e`
   `c17.sample w off img t c`                       `_sum_track_signal` of one node  -/
+def handleFile (op px pxUm lt smp img t c m k : String) : Option String := do
+  let ky ← kymo? px pxUm lt
+  let img ← intListList? img
+  let sample ← sampling? smp img
+  let g ← group? t c m k
+  if op == "c17.export" then
+    some (showExcept (showList showRow) (exportRows ky sample fmt6e g))
+  else if op == "c17.roundtrip" then
+    some (showExcept showGroup (roundtrip ky sample fmt6e g))
+  else
+    match exportRows ky sample fmt6e g with
+    | .error e => some e.name
+    | .ok rows =>
+      some (showExcept showGroup
+        (if op == "c17.roundtripu4" then importGroupUnfixedF4 ky rows else importGroupUnfixedF8 ky rows))
+
 def handle : List String → Option String
-  | [op, px, pxUm, lt, smp, img, t, c, m, k] => do
-    if op != "c17.export" && op != "c17.roundtrip" && op != "c17.roundtripu4" && op != "c17.roundtripu8" then none
-    let ky ← kymo? px pxUm lt
-    let img ← intListList? img
-    let sample ← sampling? smp img
-    let g ← group? t c m k
-    if op == "c17.export" then
-      some (showExcept (showList showRow) (exportRows ky sample fmt6e g))
-    else if op == "c17.roundtrip" then
-      some (showExcept showGroup (roundtrip ky sample fmt6e g))
-    else
-      match exportRows ky sample fmt6e g with
-      | .error e => some e.name
-      | .ok rows =>
-        some (showExcept showGroup
-          (if op == "c17.roundtripu4" then importGroupUnfixedF4 ky rows else importGroupUnfixedF8 ky rows))
+  | ["c17.export", px, pxUm, lt, smp, img, t, c, m, k] => handleFile "c17.export" px pxUm lt smp img t c m k
+  | ["c17.roundtrip", px, pxUm, lt, smp, img, t, c, m, k] => handleFile "c17.roundtrip" px pxUm lt smp img t c m k
+  | ["c17.roundtripu4", px, pxUm, lt, smp, img, t, c, m, k] => handleFile "c17.roundtripu4" px pxUm lt smp img t c m k
+  | ["c17.roundtripu8", px, pxUm, lt, smp, img, t, c, m, k] => handleFile "c17.roundtripu8" px pxUm lt smp img t c m k
   | ["c17.read", px, pxUm, lt, rows] => do
     let ky ← kymo? px pxUm lt
-    let rows ← listOf? row? rows
-    some (showExcept showGroup (importGroup ky rows))
+    -- a cell that is not a number (`X`) makes `np.loadtxt` fail: `IOError("Invalid file format!")`
+    if (rows.splitOn "X").length > 1 then some Err.io.name
+    else
+      let rows ← listOf? row? rows
+      some (showExcept showGroup (importGroup ky rows))
   | "c17.prog" :: px :: pxUm :: lt :: t :: c :: m :: k :: ops => do
     let ky ← kymo? px pxUm lt
     let g ← group? t c m k
